@@ -1,3 +1,5 @@
+#include <unistd.h>
+#include <cstdlib>
 #include "recbackend.h"
 #include "recjson.h"
 #include "mp/flat/model_api_base.h"
@@ -34,6 +36,9 @@ void rec_fault(const char *site) {
   if (kind == "systemError") throw fmt::SystemError(ENOENT, "{}", msg);
   if (kind == "stdExn") throw std::runtime_error(msg);
   if (kind == "foreign") throw 42;
+  // not exceptions: the process is killed / never returns (C09 Pipeline.lean: Beh.aborts, Beh.hangs)
+  if (kind == "abort") std::abort();
+  if (kind == "hang") for (;;) ::pause();
 }
 
 std::unique_ptr<BasicModelManager>
